@@ -1,6 +1,6 @@
 /-
 C01 — NEO side: every transaction either sets votesChanged or leaves the inputs of the committee computation
-alone (unless it blocks/unblocks/destroys a public-key account); the adequacy invariant `NeoGood` and its
+alone (block/unblock mark the committee outdated since fix d4da6a2); the adequacy invariant `NeoGood` and its
 preservation over OnPersist / transactions / PostPersist.
 -/
 import NeoModel.Proofs.LedgerPolicy
@@ -51,43 +51,6 @@ theorem revokeVotes_same_or_touched (v : TxView) (a : Acct) : revokeVotes v a = 
   | none => exact Or.inl rfl
   | some w => exact Or.inr (voteInternal_touched h)
 
--- ---------------------------------------------------------------------------------------------
--- safe operations: block / unblock / destroy never aim at a public-key account
-
-def safeOp : Op → Bool
-  | .block (.key _) => false
-  | .unblock (.key _) => false
-  | .destroy (.key _) => false
-  | _ => true
-
-theorem contains_filter_other (blocked : List Acct) (n : Nat) (k : Key) :
-    (blocked.filter (· != Acct.other n)).contains (Acct.key k) = blocked.contains (Acct.key k) := by
-  induction blocked with
-  | nil => rfl
-  | cons b bs ih =>
-    simp only [List.filter]
-    by_cases hb : b = Acct.other n
-    · subst hb
-      simp [ih]
-    · have : (b != Acct.other n) = true := by simpa using hb
-      simp only [this, List.contains_cons, ih]
-
-theorem eligible_cons_other (cands : List (Key × Cand)) (blocked : List Acct) (n : Nat) :
-    eligible cands (Acct.other n :: blocked) = eligible cands blocked := by
-  have : (fun (p : Key × Cand) => p.2.registered && !(Acct.other n :: blocked).contains (Acct.key p.1))
-       = (fun (p : Key × Cand) => p.2.registered && !blocked.contains (Acct.key p.1)) := by
-    funext p; simp [List.contains_cons]
-  unfold eligible
-  exact congrArg (fun f => sortCands ((cands.filter f).map fun (k, c) => (k, c.votes))) this
-
-theorem eligible_filter_other (cands : List (Key × Cand)) (blocked : List Acct) (n : Nat) :
-    eligible cands (blocked.filter (· != Acct.other n)) = eligible cands blocked := by
-  have : (fun (p : Key × Cand) => p.2.registered && !(blocked.filter (· != Acct.other n)).contains (Acct.key p.1))
-       = (fun (p : Key × Cand) => p.2.registered && !blocked.contains (Acct.key p.1)) := by
-    funext p; rw [contains_filter_other]
-  unfold eligible
-  exact congrArg (fun f => sortCands ((cands.filter f).map fun (k, c) => (k, c.votes))) this
-
 /-- the part of the storage `computeCommittee` reads. -/
 def sameInputs (a b : Storage) : Prop :=
   a.cands = b.cands ∧ a.votersCount = b.votersCount ∧ eligible a.cands a.blocked = eligible b.cands b.blocked
@@ -100,22 +63,17 @@ theorem compute_of_sameInputs (cfg : Cfg) {a b : Storage} (h : sameInputs a b) :
 
 theorem sameInputs_refl (a : Storage) : sameInputs a a := ⟨rfl, rfl, rfl⟩
 
-theorem blockInternal_other (v : TxView) (n : Nat) (_hp : PolCoh v) (_hu : v.touched = false) :
-    (blockInternal v (Acct.other n)).1.touched = true ∨
-    (sameInputs (blockInternal v (Acct.other n)).1.st v.st ∧ (blockInternal v (Acct.other n)).1.st.committee = v.st.committee
-      ∧ (blockInternal v (Acct.other n)).1.committee = v.committee) := by
+/-- blocking either changes nothing (already blocked) or marks the committee outdated. -/
+theorem blockInternal_same_or_touched (v : TxView) (a : Acct) :
+    (blockInternal v a).1 = v ∨ (blockInternal v a).1.touched = true := by
   unfold blockInternal
   split
-  · exact Or.inr ⟨sameInputs_refl _, rfl, rfl⟩
-  · rcases revokeVotes_same_or_touched v (Acct.other n) with h | h
-    · right
-      rw [h]
-      exact ⟨⟨rfl, rfl, eligible_cons_other _ _ _⟩, rfl, rfl⟩
-    · left; exact h
+  · exact Or.inl rfl
+  · exact Or.inr rfl
 
-/-- A transaction that is not a (un)block/destroy of a key account either marks votesChanged or leaves the
-    inputs of the committee computation untouched. -/
-theorem execOp_inputs (v : TxView) (tx : Tx) (hs : safeOp tx.op = true) (_hp : PolCoh v) (_hu : v.touched = false) :
+/-- Every transaction either marks votesChanged or leaves the inputs of the committee computation (candidates,
+    voters count, blocked list) untouched. -/
+theorem execOp_inputs (v : TxView) (tx : Tx) :
     (execOp v tx).1.touched = true ∨
     (sameInputs (execOp v tx).1.st v.st ∧ (execOp v tx).1.st.committee = v.st.committee ∧ (execOp v tx).1.committee = v.committee) := by
   have keep : sameInputs v.st v.st ∧ v.st.committee = v.st.committee ∧ v.committee = v.committee := ⟨sameInputs_refl _, rfl, rfl⟩
@@ -167,36 +125,26 @@ theorem execOp_inputs (v : TxView) (tx : Tx) (hs : safeOp tx.op = true) (_hp : P
     split; · exact Or.inr keep
     exact Or.inr ⟨⟨rfl, rfl, rfl⟩, rfl, rfl⟩
   · -- block
-    rename_i a hop
+    rename_i a _
     split; · exact Or.inr keep
-    cases a with
-    | key k => rw [hop] at hs; simp [safeOp] at hs
-    | other n => exact blockInternal_other v n _hp _hu
+    rcases blockInternal_same_or_touched v a with h | h
+    · dsimp only; rw [h]; exact Or.inr keep
+    · exact Or.inl h
   · -- unblock
-    rename_i a hop
     split; · exact Or.inr keep
     split; · exact Or.inr keep
-    cases a with
-    | key k => rw [hop] at hs; simp [safeOp] at hs
-    | other n => exact Or.inr ⟨⟨rfl, rfl, eligible_filter_other _ _ _⟩, rfl, rfl⟩
+    exact Or.inl rfl
   · split
     · exact Or.inr keep
     · exact Or.inr ⟨⟨rfl, rfl, rfl⟩, rfl, rfl⟩
   · -- destroy
-    rename_i a hop
+    rename_i c _
     split; · exact Or.inr keep
-    cases a with
-    | key k => rw [hop] at hs; simp [safeOp] at hs
-    | other n =>
-      rcases blockInternal_other v n _hp _hu with h | ⟨h1, h2, h3⟩
-      · exact Or.inl h
-      · exact Or.inr ⟨h1, h2, h3⟩
+    rcases blockInternal_same_or_touched v c with h | h
+    · dsimp only; rw [h]; exact Or.inr ⟨⟨rfl, rfl, rfl⟩, rfl, rfl⟩
+    · exact Or.inl h
   · exact Or.inr keep
   · exact Or.inr keep
-
-end NeoModel.Ledger.Natives
-
-namespace NeoModel.Ledger.Natives
 
 theorem blockInternal_scm (v : TxView) (a : Acct) : (blockInternal v a).1.st.committee = v.st.committee := by
   unfold blockInternal
@@ -295,14 +243,14 @@ theorem onPersist_mid (cfg : Cfg) (st : Storage) (c : Caches) (h : Nat)
     have hpin : pinned cfg st h = st.committee := by simp [pinned, he]
     exact ⟨hp, hg.cm, hg.nv, by rw [hg.ne, hpin], by rw [hg.nev, hpin], hg.fresh⟩
 
-theorem execTx_mid (cfg : Cfg) (w : World) (tx : Tx) (hs : safeOp tx.op = true) (hm : Mid cfg w) :
+theorem execTx_mid (cfg : Cfg) (w : World) (tx : Tx) (hm : Mid cfg w) :
     Mid cfg (execTx w tx).1 := by
   unfold execTx
   split; · exact hm
   have hv : PolCoh (viewOf w) := hm.pol
   have h1 := execOp_polcoh (viewOf w) tx hv
   have h2 := execOp_scm (viewOf w) tx
-  have h3 := execOp_inputs (viewOf w) tx hs hv rfl
+  have h3 := execOp_inputs (viewOf w) tx
   revert h1 h2 h3
   generalize execOp (viewOf w) tx = p
   obtain ⟨v, r⟩ := p
@@ -324,14 +272,13 @@ theorem execTx_mid (cfg : Cfg) (w : World) (tx : Tx) (hs : safeOp tx.op = true) 
         rw [compute_of_sameInputs cfg hi, hc]
         exact hm.fresh hf.1
 
-theorem execTxs_mid (cfg : Cfg) (txs : List Tx) : ∀ (w : World), (∀ tx ∈ txs, safeOp tx.op = true) → Mid cfg w →
-    Mid cfg (execTxs w txs).1 := by
+theorem execTxs_mid (cfg : Cfg) (txs : List Tx) : ∀ (w : World), Mid cfg w → Mid cfg (execTxs w txs).1 := by
   induction txs with
-  | nil => intro w _ h; exact h
+  | nil => intro w h; exact h
   | cons tx rest ih =>
-    intro w hs h
+    intro w h
     simp only [execTxs]
-    exact ih _ (fun t ht => hs t (List.mem_cons_of_mem _ ht)) (execTx_mid cfg w tx (hs tx List.mem_cons_self) h)
+    exact ih _ (execTx_mid cfg w tx h)
 
 theorem postPersist_good (cfg : Cfg) (w : World) (h : Nat) (hm : Mid cfg w) :
     PolCohW (postPersist cfg w h) ∧ NeoGood cfg (postPersist cfg w h).st (postPersist cfg w h).c.neo h := by
@@ -360,14 +307,14 @@ theorem postPersist_good (cfg : Cfg) (w : World) (h : Nat) (hm : Mid cfg w) :
     have hpin : pinned cfg w.st h = w.st.committee := by simp [pinned, he]
     exact ⟨hm.cm, hm.nv, by rw [hpin]; exact hm.ne, by rw [hpin]; exact hm.nev, hm.fresh⟩
 
-/-- cache_coherent (NEO, partial): over a block without (un)block/destroy of key accounts an adequate NEO
-    cache stays adequate, and the Policy cache stays equal to InitializeCache(storage). -/
+/-- cache_coherent (NEO): over any block an adequate NEO cache stays adequate, and the Policy cache stays equal
+    to InitializeCache(storage). -/
 theorem applyBlock_good (cfg : Cfg) (st : Storage) (c : Caches) (h : Nat) (txs : List Tx)
-    (hs : ∀ tx ∈ txs, safeOp tx.op = true) (hp : c.policy = initPolicy st) (hg : NeoGood cfg st c.neo h) :
+    (hp : c.policy = initPolicy st) (hg : NeoGood cfg st c.neo h) :
     (applyBlock cfg st c (h + 1) txs).2.1.policy = initPolicy (applyBlock cfg st c (h + 1) txs).1 ∧
     NeoGood cfg (applyBlock cfg st c (h + 1) txs).1 (applyBlock cfg st c (h + 1) txs).2.1.neo (h + 1) := by
   have h0 := onPersist_mid cfg st c h hp hg
-  have h1 := execTxs_mid cfg txs _ hs h0
+  have h1 := execTxs_mid cfg txs _ h0
   exact postPersist_good cfg _ (h + 1) h1
 
 end NeoModel.Ledger.Natives
